@@ -31,7 +31,7 @@ mod real {
     /// Second file of a directory-mode case: delimiters 4/7, one wrong and one right expectation.
     const B_FIXED: &str = "====\nb one\n====\nx = 1;\n-------\n\n(wrong)\n\n===\nb two\n:error\n===\ny = ;\n---\n\n(source)\n";
 
-    const LANGS: [(&str, &str); 2] = [("main", "stmt"), ("other", "lst")];
+    const LANGS: [(&str, &str); 3] = [("main", "stmt"), ("other", "lst"), ("xf", "fldx")];
 
     fn hx(b: &[u8]) -> String {
         if b.is_empty() {
@@ -331,6 +331,40 @@ mod real {
         "a = 1", "return x", "f(1)", "while x { y = 2 }",
     ];
     const LST_INPUTS: [&str; 6] = ["ab cd", "(a b (c))", "é € 12", "a\nb\n\nc", "( a", "x ? y"];
+    // language `xf` (zoo/fldx): field names with digits, upper-case letters, a leading underscore next to ordinary ones
+    const FX_INPUTS: [&str; 12] = [
+        "f(1)", "f(a, 2)", "g(a, b, c) -> r", "f(g(1), 2) h()", "f()", "k(1, 2, 3, 4)", "f(g(h(1, 2), 3) -> r, 4, 5)", "ab(zz) -> k\ng(0)",
+        "f(1,, 2)", "f(1", "k(1) ->", "f(1 2)",
+    ];
+
+    /// Field names removed from an S-expression the way the documentation of corpus tests describes it (`name: (` -> `(`
+    /// for every field name the GRAMMARS of this check use: letters, digits, `_`), written independently of the CLI's
+    /// `strip_sexp_fields`: the expectations the generator writes "without field names" must not depend on the code under test.
+    fn own_strip(s: &str) -> String {
+        let b: Vec<char> = s.chars().collect();
+        let mut out = String::new();
+        let mut i = 0;
+        while i < b.len() {
+            // at a word start preceded by a space: [A-Za-z0-9_]+ ':' ' ' '('
+            if (i == 0 || b[i - 1] == ' ') && (b[i].is_ascii_alphanumeric() || b[i] == '_') {
+                let mut j = i;
+                while j < b.len() && (b[j].is_ascii_alphanumeric() || b[j] == '_') {
+                    j += 1;
+                }
+                if j + 2 < b.len() && b[j] == ':' && b[j + 1] == ' ' && b[j + 2] == '(' {
+                    i = j + 2;
+                    continue;
+                }
+                out.extend(b[i..j].iter());
+                i = j;
+                continue;
+            }
+            out.push(b[i]);
+            i += 1;
+        }
+        out
+    }
+
     const SUFFIXES: [&str; 5] = ["|||", " tag", "é≠", "+x+", "#1"];
 
     impl<'a> Gen<'a> {
@@ -429,6 +463,8 @@ mod real {
                 }
                 if lang == "other" {
                     s.push_str(self.pk(&LST_INPUTS));
+                } else if lang == "xf" {
+                    s.push_str(self.pk(&FX_INPUTS));
                 } else if self.rng.chance(1, 3) {
                     let budget = *self.rng.pick(&[3usize, 8, 20]);
                     let toks = self.gg.sentence(&mut self.rng, budget);
@@ -489,6 +525,10 @@ mod real {
                     _ => c,
                 };
             }
+            // "without field names": stripped by the generator itself, not by the code under test
+            let _ = &sp;
+            let plain_own = own_strip(&sf);
+            let sp = plain_own;
             let good = tree_sitter::format_sexp(if self.rng.chance(1, 4) { &sf } else { &sp }, 0);
             match self.rng.below(10) {
                 0 => String::new(),
@@ -528,7 +568,7 @@ mod real {
                 if self.rng.chance(1, 2) {
                     let k = self.rng.range(1, 3);
                     for _ in 0..k {
-                        let a = match self.rng.below(if plain { 6 } else { 14 }) {
+                        let a = match self.rng.below(if plain { 7 } else { 16 }) {
                             0 => ":error",
                             1 => ":fail-fast",
                             2 => ":language(main)",
@@ -538,16 +578,20 @@ mod real {
                                 ":cst"
                             }
                             5 => "",
-                            6 => ":skip",
-                            7 => {
+                            6 | 15 => {
+                                lang = "xf".to_string();
+                                ":language(xf)"
+                            }
+                            7 => ":skip",
+                            8 => {
                                 lang = "other".to_string();
                                 ":language(other)"
                             }
-                            8 => ":platform(macos)",
-                            9 => "  :skip  ",
-                            10 => ":foo",
-                            11 => ":language(nope)",
-                            12 => ":platform",
+                            9 => ":platform(macos)",
+                            10 => "  :skip  ",
+                            11 => ":foo",
+                            12 => ":language(nope)",
+                            13 => ":platform",
                             _ => ":language( main )",
                         };
                         let real_marker = |x: &String| {
@@ -565,6 +609,11 @@ mod real {
                         }
                         attrs.push(a.to_string());
                     }
+                }
+                // the language whose field names are not snake_case, more often than the attribute lottery alone gives it
+                if lang == "main" && !attrs.iter().any(|a| a.contains(":language")) && self.rng.chance(1, 7) {
+                    attrs.push(":language(xf)".to_string());
+                    lang = "xf".to_string();
                 }
                 let input = self.input(&lang, &suffix, dlen, hlen);
                 let expected = self.expectation(&lang, &input, cst, &suffix, dlen, hlen);
